@@ -379,6 +379,11 @@ func c11Run(rc *core.RunCtx) {
 			scopeProg(&sscope{kind: scModule, items: items}, used)
 		})
 	}
+	// (5b) assignment-target trees in every position a target can occur: what may and may not be
+	// assigned to is decided by tree walks (setCtx and friends) that the token sequences above
+	// are too short to reach
+	rc.Part = "targets"
+	c11Targets(rc)
 	// (6) size limits: many constants / names / long jumps / deep nesting
 	rc.Part = "limits"
 	for _, g := range c11Limits(rc.Quick()) {
@@ -387,6 +392,61 @@ func c11Run(rc *core.RunCtx) {
 		}
 		if rc.Take() {
 			c11One(rc, g.src, g.mode, "limit:"+g.name)
+		}
+	}
+}
+
+// c11TargetTrees: all expression trees of the given depth over atoms {name, attribute,
+// subscript, number, call, None, string, binary operation, lambda, comparison, conditional} and the constructors {*T, (T, U),
+// [T, U], (T), (T,), [T], T.a, T[0]}.
+func c11TargetTrees(depth int) []string {
+	atoms := []string{"a", "a.b", "a[0]", "1", "f()", "None", "'s'", "a + 1", "a if b else c", "lambda: a", "a < b", "...", "a[0:1]", "yield", "-a", "()", "[]"}
+	if depth == 0 {
+		return atoms
+	}
+	sub := c11TargetTrees(depth - 1)
+	out := append([]string{}, atoms...)
+	for _, t := range sub {
+		out = append(out, "*"+t, "("+t+")", "("+t+",)", "["+t+"]", "("+t+").a", "("+t+")[0]")
+	}
+	// pairs: the full square at depth 1, against a short list above that
+	right := sub
+	if depth > 1 {
+		right = []string{"b", "1", "*b"}
+	}
+	for _, t := range sub {
+		for _, u := range right {
+			out = append(out, "("+t+", "+u+")", "["+t+", "+u+"]")
+			if depth > 1 {
+				out = append(out, "("+u+", "+t+")")
+			}
+		}
+	}
+	return out
+}
+
+func c11Targets(rc *core.RunCtx) {
+	depth := 2
+	ctxs := []string{"%s = c\n", "%s, b = c\n", "b, %s = c\n", "x = %s = c\n", "for %s in c: pass\n", "for %s, b in c: pass\n", "with c as %s: pass\n", "with c as (%s, b): pass\n",
+		"del %s\n", "del %s, b\n", "del (%s, b)\n", "[0 for %s in c]\n", "[0 for %s, b in c]\n", "(0 for b, %s in c)\n", "{0: 1 for %s in c}\n", "%s += 1\n", "%s: pass\n",
+		"def g(%s): pass\n", "lambda %s: 0\n", "import m as %s\n", "from m import n as %s\n", "try: pass\nexcept E as %s: pass\n", "global %s\n", "nonlocal %s\n", "f(%s=1)\n", "class K(%s=1): pass\n",
+		"def g(a, *, %s): pass\n", "def g(a=%s): pass\n", "@%s\ndef g(): pass\n", "x = yield %s\n", "x = [%s for a in c]\n", "print(%s)\n", "f(*%s)\n", "f(**%s)\n", "raise %s from b\n", "assert %s, b\n", "return %s\n"}
+	trees := c11TargetTrees(depth)
+	rc.Note("target_trees", itoa(len(trees)))
+	for _, cx := range ctxs {
+		for _, t := range trees {
+			if rc.Expired() || rc.Done() {
+				return
+			}
+			src := fmt.Sprintf(cx, t)
+			for _, m := range []py.CompileMode{py.ExecMode, py.SingleMode} {
+				if rc.Take() {
+					c11One(rc, src, m, "targets")
+				}
+			}
+			if rc.Take() {
+				c11One(rc, "def h():\n "+strings.ReplaceAll(strings.TrimSuffix(src, "\n"), "\n", "\n ")+"\n", py.ExecMode, "targets")
+			}
 		}
 	}
 }
